@@ -55,7 +55,7 @@ checks = [
   TRUST),
  ("C07", "exhaustive enumeration of (receiver class x configured method x argument tuple) calls, each analysed by the real code and judged by a three-valued reference acceptance model read from the same JSON",
   "Every configured instance method name (plus undeclared names) on 9 literal receivers x every argument tuple of length 0..2 (quick) / 0..3 (thorough) over 7 literal kinds and 3 union-typed variables, one call per program: whenever the reference model says 'certainly fails' (undeclared for the class and its ancestors, count outside every overload, an argument whose every class is rejected by every overload) a diagnostic must be on the call's row.",
-  TRUST + " The reference model answers only on its certain domain (keyword parameters, block methods, mixed default unions, typed-array elements, Integer-for-Float, Unify-style parameters are 'unknown'). Configurations: the shipped core files, a generated base/subclass pair with an override in both file orders, a generated class covering every parameter-spec tuple over 11 parameter notations up to length 2 (thorough 3), and a generated class with 0-1 positional and 2-3 keyword parameters in every declaration order x call order x value types (direct verdict rule)."),
+  TRUST + " The reference model answers only on its certain domain (keyword parameters, block methods, mixed default unions, typed-array elements, Integer-for-Float, Unify-style parameters are 'unknown'). Configurations: the shipped core files, a generated base/subclass pair with an override in both file orders, a generated class covering every parameter-spec tuple over 11 parameter notations up to length 2 (thorough 3), a generated class with 0-1 positional and 2-3 keyword parameters in every declaration order x call order x value types, and a generated class with overloads (rest + trailing required vs. fixed arity, in both orders; inherited overloads through a user subclass) with hand-written verdicts."),
  ("C08", "same enumeration as C07, restricted to calls the reference acceptance model certainly accepts",
   "For every call of the C07 space that certainly fits a declaration (declared or inherited, count accepted, every class of every argument - including union-typed arguments - accepted) there must be no diagnostic on the call's row.",
   TRUST + " Same reference-model domain as C07."),
@@ -63,7 +63,7 @@ checks = [
   "(a) `dbtp recv.m(args)` must print the declared return type with Self, Unify, OptionalUnify, typed arrays, unions and ?T resolved against the receiver; (b) every sequence of <=3 (quick) / <=4 (thorough) statements over literals, array/hash literals (incl. a repeated key), reassignment, copy, indexing, hash lookup, push, <<, OptionalUnify calls, nested array literals, push/<< of arrays and call chains is probed after every statement against the reference interpreter (set equality of types).",
   TRUST + " Conditional returns, Argument/SelfArgument/BlockResultArray style returns and whether an index expression may be nil are outside the reference's domain."),
  ("C10", "exhaustive enumeration of conditional skeletons against a reference variant-filter model",
-  "Variable types {Integer|NilClass, Integer|String, Integer|String|NilClass, String|Array} x conditions (atoms and && pairs over nil?/!nil?/is_a?/!is_a? on one or two variables) x if/unless x none/else/elsif-else x filler statements (incl. an unrelated inner if and a block) x optional nested conditional, with dbtp probes in every branch and after the conditional; every probe must print the reference set (class level).",
+  "Variable types {Integer|NilClass, Integer|String, Integer|String|NilClass, String|Array} x conditions (atoms and && pairs over nil?/!nil?/is_a?/!is_a? on one or two variables) x if/unless x none/else/elsif-else x filler statements (incl. an unrelated inner if and a block) x optional nested conditional, and the narrowing conditional wrapped in a branch of an enclosing conditional that narrows nothing (four positions, three outer tests), with dbtp probes in every branch and after the conditional; every probe must print the reference set (class level).",
   TRUST + " Probes whose reference set is empty (unreachable branch) are skipped."),
  ("C17", "exhaustive enumeration of block calls against a reference parameter-resolution model",
   "Receivers {Array<Integer>, Array<Integer String>, two Hashes, Range, String, Integer} x every configured block method visible on them x 0..declared+1 block variables x do/end and braces x shadowing of an outer variable x a nested inner block (reading / shadowing the outer parameter) with a block-local assignment, plus overloaded block methods of a generated class (only the overload declares block parameters) called with and without parenthesised arguments; probes on every parameter inside, and on the outer variable and the block-local after the block.",
@@ -87,7 +87,7 @@ checks = [
   "AST documents for every shape {0-2 required, 0-2 optional, rest?, 0-1 trailing, 0-2 (thorough 3) required and optional keywords} (+ overload, alias, attribute; and documents in which an instance and a singleton method share a name, with aliases of either kind) go through rbs2json with a stand-in ruby: byte-identical JSON under SORTED/REVERSED/ROT map orders and repeated unmodified runs; prescribed argument order/flags/type mapping; ti with the emitted file reports a call with k=0..6 positionals exactly outside the RBS arity.",
   "rbs2json and c2json are built from /repo with the same map-order overlay (order policy from $VERIF_ORDER) and also unmodified. The Ruby RBS parser is absent: generation starts at the AST JSON the embedded script would print."),
  ("C26", "exhaustive enumeration of C binding definitions through the real converter, then through ti",
-  "Every MRB_ARGS combination (REQ 0-2, OPT 0-2, REST, POST 0-1, BLOCK, NONE, ANY) via both definers, every well-formed mrb_get_args format over {i,S,o,!,|,*,&} with <=1 (thorough 2) required and optional types, GET_*_ARG/argc patterns, and one C function bound twice with different specs: converter output byte-identical under map orders and repeated runs; ti with the emitted file reports a call with k=0..6 positionals exactly outside the C definition's arity.",
+  "Every MRB_ARGS combination (REQ 0-2, OPT 0-2, REST, POST 0-1, BLOCK, NONE, ANY) via both definers, every well-formed mrb_get_args format over {i,S,o,!,|,*,&} with <=1 (thorough 2) required and optional types, GET_*_ARG/argc patterns, one C function bound twice with different specs: converter output byte-identical under map orders and repeated runs; ti with the emitted file reports a call with k=0..6 positionals exactly outside the C definition's arity.",
   "No C compiler involved: the reference arity is the generator's reading of the spec/format/argc pattern."),
 ]
 m = {
